@@ -449,7 +449,7 @@ fn gen_utf8(rng: &mut Rng, n: usize) -> Vec<u8> {
         let left = n - v.len();
         let k = if rng.chance(4, 5) { 1 } else { 1 + rng.below(4) as usize };
         match k.min(left) {
-            1 => v.push(*rng.pick(&[b'a', b'b', b'/', b't', b'0', b' ', 0x7f, 0x01])),
+            1 => v.push(*rng.pick(&[b'a', b'b', b'/', b't', b'0', b' ', 0x7f, 0x01, b'a', b'b', b'c', 0x00])),
             2 => v.extend_from_slice("\u{e9}".as_bytes()),
             3 => v.extend_from_slice(*rng.pick(&["\u{20ac}".as_bytes(), "\u{ffff}".as_bytes(), "\u{800}".as_bytes()])),
             _ => v.extend_from_slice(*rng.pick(&["\u{1f600}".as_bytes(), "\u{10ffff}".as_bytes(), "\u{10000}".as_bytes()])),
@@ -838,7 +838,18 @@ pub fn replay_line(t: &[u64]) -> String {
 fn mutate_bytes(rng: &mut Rng, mut b: Vec<u8>) -> Vec<u8> {
     let n = 1 + rng.below(3);
     for _ in 0..n {
-        match rng.below(9) {
+        match rng.below(12) {
+            9 | 10 | 11 => {
+                // a property identifier replaced by another identifier whose value has the same shape (the bytes stay
+                // well-formed; the property may now be one that is not permitted here, or a second occurrence)
+                let cand: Vec<usize> = (0..b.len()).filter(|i| PROP_IDS.contains(&(b[*i] as u64))).collect();
+                if !cand.is_empty() {
+                    let i = *rng.pick(&cand);
+                    let sh = shape(b[i] as u64);
+                    let same: Vec<u64> = PROP_IDS.iter().copied().filter(|x| shape(*x) == sh && *x != b[i] as u64).collect();
+                    if !same.is_empty() { b[i] = *rng.pick(&same) as u8 }
+                }
+            }
             0 => if !b.is_empty() { let i = rng.below(b.len() as u64) as usize; b[i] ^= 1 << rng.below(8) },
             1 => if !b.is_empty() { let k = rng.below(b.len() as u64) as usize; b.truncate(k) },
             2 => { let i = rng.below(b.len() as u64 + 1) as usize; b.insert(i, *rng.pick(&[0x00u8, 0x80, 0xff])) }
